@@ -99,9 +99,30 @@ pub struct Rec<'a> {
     stats: &'a Stats,
     frozen: &'a Cell<bool>,
     pub strict: bool,
+    known: &'a [KnownFinding],
+    /// number of known-finding hits recorded during the current case
+    pub local_known: Cell<u64>,
 }
 
 impl<'a> Rec<'a> {
+    /// A failure with signature `sig`: when the signature is a listed known finding the hit is
+    /// counted and the case continues (Ok), otherwise the failure is returned.
+    pub fn known_or_fail(&self, sig: &str, msg: String) -> TResult {
+        if let Some(k) = self.known.iter().find(|k| k.signature == sig) {
+            self.local_known.set(self.local_known.get() + 1);
+            if !self.frozen.get() {
+                let mut kh = self.stats.known_hits.lock().unwrap();
+                let e = kh.entry(k.signature.clone()).or_insert((0, k.what.clone()));
+                e.0 += 1;
+            }
+            if self.strict {
+                println!("KNOWN-FINDING: property={} {} [{}]", k.property, k.what, k.signature);
+            }
+            Ok(())
+        } else {
+            Err(Fail::sig(sig, msg))
+        }
+    }
     pub fn class(&self, name: &str) {
         if self.frozen.get() {
             return;
@@ -281,6 +302,8 @@ pub fn run_check<C: Check>(c: &C, env: &RunEnv) -> SubOutcome {
             stats: &stats,
             frozen: &frozen,
             strict: false,
+            known: &env.known,
+            local_known: Cell::new(0),
         };
         for case in c.corpus() {
             stats.evaluations.fetch_add(1, Ordering::Relaxed);
@@ -343,6 +366,8 @@ pub fn run_check<C: Check>(c: &C, env: &RunEnv) -> SubOutcome {
                             stats,
                             frozen: &frozen,
                             strict: false,
+                            known: &env.known,
+            local_known: Cell::new(0),
                         };
                         if !frozen.get() {
                             stats.evaluations.fetch_add(1, Ordering::Relaxed);
@@ -443,6 +468,8 @@ pub fn replay_check<C: Check>(c: &C, env: &RunEnv, case_json: &Value) -> Result<
         stats: &stats,
         frozen: &frozen,
         strict: true,
+        known: &env.known,
+        local_known: Cell::new(0),
     };
     let r = std::panic::catch_unwind(std::panic::AssertUnwindSafe(|| c.test(&case, &rec)));
     let r = match r {
@@ -515,6 +542,11 @@ pub fn run_property(p: &Property, env: &RunEnv, only: Option<&str>) -> i32 {
                 ""
             }
         );
+        if std::env::var("WWCHECK_VERBOSE").is_ok() {
+            eprintln!("    classes: {:?}", out.classes);
+            eprintln!("    maxima: {:?}", out.maxima);
+            eprintln!("    known hits: {:?}", out.known_hits.iter().map(|(k, v)| (k.clone(), v.0)).collect::<Vec<_>>());
+        }
         subs.push(out);
     }
     let wall = t0.elapsed().as_secs_f64();
